@@ -178,6 +178,7 @@ impl ConeQ {
   /// Run the query on the subject; the flat variant is returned as partial cells of the depth.
   pub fn run(&self) -> Result<Bm, String> {
     let q = *self;
+    journal("nested::cone_coverage_approx", || self.to_json());
     guarded(move || match q.variant {
       0 => Bm::from_impl(&nested::cone_coverage_approx(q.depth, q.lon, q.lat, q.r)),
       1 => {
